@@ -71,7 +71,7 @@ func main() {
 }
 
 func run(c *core.Ctx) {
-	c.SetRule("Part A: one case = one real pipeline (decoder json|raw|cri, pool kind, max_event_size derived from a pivot record, cut-off on/off, mark field, antispam off/threshold/exceptions/rules, source_name_meta_field, saved offsets) fed 20-60 records (lengths max-1..max+2 with/without line feed, blank-tailed and garbage-tailed JSON, multi-byte/escape/control/invalid-UTF-8 text, empty and broken records) through a reused input buffer; fingerprint = decoder x record shape x cut x line feed x mark x meta x length relative to the limit, counted only for delivered events that compared equal. " +
+	c.SetRule("Part A: one case = one real pipeline (decoder json|raw|cri, pool kind, max_event_size derived from a pivot record, cut-off on/off, mark field, antispam off/threshold/exceptions/rules, source_name_meta_field, saved offsets; sources distinct, or several source ids under one source name, or one id under changing names) fed 20-60 records (lengths max-1..max+2 with/without line feed, blank-tailed and garbage-tailed JSON, multi-byte/escape/control/invalid-UTF-8 text, empty and broken records) through a reused input buffer; fingerprint = decoder x record shape x cut x line feed x mark x meta x length relative to the limit, counted only for delivered events that compared equal; plus per antispam case sources mode x number of antispam keys x threshold x bucketed spam refusals / records of name-sharing ids / records accepted while a namesake is banned. " +
 		"Part B: one case = one Antispammer with a generated configuration and a history of IsSpam calls and explicit Maintenance() rounds (bursts around the threshold, silences of unbanIterations-1..+2 rounds, trickles, interleaved sources, event-time gaps, new-source flags), or one concurrent burst; fingerprint = family x threshold x unbanIterations x bucketed numbers of bans/unbans/probes after silence/residue re-bans/new-source/gap/free/blocked records.")
 	c.Assume("pipeline/README.md, pipeline/antispam/README.md and cfg/matchrule/README.md are the specification; where they leave a choice every reading is accepted (see NOTES.md)")
 	c.Assume("encoding of events at the output is compared with an own RFC 8259 reader (byte-exact strings); decoders other than json/raw/cri are C12's subject")
@@ -186,6 +186,9 @@ func run(c *core.Ctx) {
 		"A class decodable (oversize, cut)", "A class decodable (within limit)", "A class already committed",
 		"A json: cut events delivered intact (prefix + mark)", "A raw: cut events delivered intact (prefix + mark)", "A cri: cut events delivered intact (prefix + mark)",
 		"A json: delivered events compared", "A raw: delivered events compared", "A cri: delivered events compared",
+		"A counted records of a source id that shares its source name with another active id",
+		"A record accepted while another source id with the same source name is banned (own budget kept)",
+		"A source id under changing names refused as spam (one budget for the id)",
 		"B.seq ban transitions (first refused record)", "B.seq unban transitions (first accepted record after a ban)",
 		"B.seq probes of a banned source after unbanIterations+1 silent rounds", "B.seq class exception",
 		"B.seq class unlimited-rule", "B.seq class blocked-rule", "B.seq class disabled",
